@@ -72,6 +72,10 @@ class BlobZipper:
         self.path_to_dir = path_to_dir
         self.path_to_blob_dir = path_to_blob_dir
 
+    def clear_blob_dir(self) -> None:
+        shutil.rmtree(self.path_to_blob_dir, ignore_errors=True)
+        self.path_to_blob_dir.mkdir(parents=True, exist_ok=True)
+
     def zip_blob(self) -> None:
         zip_file_path = self.path_to_dir.joinpath(f"{self.blob_name}.sdxblob.zip")
         shutil.make_archive(str(zip_file_path.with_suffix("")), "zip", str(self.path_to_blob_dir))
@@ -79,15 +83,20 @@ class BlobZipper:
     def unzip_blob(self) -> None:
         zip_file_path = self.path_to_dir.joinpath(f"{self.blob_name}.sdxblob.zip")
         if zip_file_path.exists():
+            # Start from an empty working directory, so that nothing is served from an earlier build or read.
+            self.clear_blob_dir()
             try:
                 with zipfile.ZipFile(zip_file_path, "r") as zip_ref:
                     zip_ref.extractall(self.path_to_blob_dir)
             except zipfile.BadZipFile:
                 print(f"Error: The file {zip_file_path} is not a valid ZIP file.")
+                raise
             except zipfile.LargeZipFile:
                 print(f"Error: The file {zip_file_path} requires ZIP64 functionality but it is not enabled.")
+                raise
             except Exception as e:
                 print(f"An unexpected error occurred while extracting {zip_file_path}: {e}")
+                raise
         else:
             raise FileNotFoundError(f"Zip file {zip_file_path} does not exist.")
 
@@ -310,6 +319,8 @@ class SyndiffixBlobBuilder(SyndiffixBlob):
         self.df_raw = df_raw
         self.pids = pids
 
+        # The archive is made from the whole working directory: drop leftovers of earlier builds or reads.
+        self.bzip.clear_blob_dir()
         self._write_version()
         # Build a synthesizer that synthesizes each column independently of the others
         syn = Synthesizer(self.df_raw, pids=self.pids, clustering=NoClustering())
